@@ -666,4 +666,65 @@ inline bool dec_table_header(In& in, std::uint64_t hash, std::uint64_t* count) {
 }  // namespace vt
 #endif
 
+// two-element tuple and C arrays (same wire format as std::array), used by the fungibility lemmas
+namespace vt {
+template <typename A, typename B>
+struct Fmt<std::tuple<A, B>> {
+  using P = std::tuple<A, B>;
+  static void enc(fmt::Out& o, const P& v) {
+    fmt::enc_header(o, FMT_ARY, 2);
+    Fmt<A>::enc(o, std::get<0>(v));
+    Fmt<B>::enc(o, std::get<1>(v));
+  }
+  static bool dec(fmt::In& in, P* v) {
+    if (!fmt::dec_header_fixed(in, FMT_ARY, 2, nop::ErrorStatus::InvalidContainerLength)) return false;
+    return Fmt<A>::dec(in, &std::get<0>(*v)) && Fmt<B>::dec(in, &std::get<1>(*v));
+  }
+};
+template <typename A, typename B>
+struct Gen<std::tuple<A, B>> {
+  using P = std::tuple<A, B>;
+  static void make(P* v) {
+    Gen<A>::make(&std::get<0>(*v));
+    Gen<B>::make(&std::get<1>(*v));
+  }
+  static bool eq(const P& a, const P& b) { return Gen<A>::eq(std::get<0>(a), std::get<0>(b)) && Gen<B>::eq(std::get<1>(a), std::get<1>(b)); }
+};
+template <typename T, std::size_t N>
+struct Fmt<T[N]> {
+  static void enc(fmt::Out& o, const T (&v)[N]) {
+    if (std::is_integral<T>::value) {
+      fmt::enc_header(o, FMT_BIN, N * sizeof(T));
+      for (std::size_t i = 0; i < N; i++) fmt::put_raw(o, v[i]);
+    } else {
+      fmt::enc_header(o, FMT_ARY, N);
+      for (std::size_t i = 0; i < N; i++) Fmt<T>::enc(o, v[i]);
+    }
+  }
+  static bool dec(fmt::In& in, T (*v)[N]) {
+    if (std::is_integral<T>::value) {
+      if (!fmt::dec_header_fixed(in, FMT_BIN, N * sizeof(T), nop::ErrorStatus::InvalidContainerLength)) return false;
+      for (std::size_t i = 0; i < N; i++)
+        if (!fmt::get_raw(in, &(*v)[i])) return false;
+    } else {
+      if (!fmt::dec_header_fixed(in, FMT_ARY, N, nop::ErrorStatus::InvalidContainerLength)) return false;
+      for (std::size_t i = 0; i < N; i++)
+        if (!Fmt<T>::dec(in, &(*v)[i])) return false;
+    }
+    return true;
+  }
+};
+template <typename T, std::size_t N>
+struct Gen<T[N]> {
+  static void make(T (*v)[N]) {
+    for (std::size_t i = 0; i < N; i++) Gen<T>::make(&(*v)[i]);
+  }
+  static bool eq(const T (&a)[N], const T (&b)[N]) {
+    bool r = true;
+    for (std::size_t i = 0; i < N; i++) r = r && Gen<T>::eq(a[i], b[i]);
+    return r;
+  }
+};
+}  // namespace vt
+
 #endif  // VERIF_SPEC_FORMAT_SPEC_H_
